@@ -3,6 +3,7 @@ package main
 // C04 — a reported success identifies exactly where and what was written (structural clauses).
 
 import (
+	"strings"
 	"fmt"
 	"go/token"
 	"go/types"
@@ -138,6 +139,32 @@ func c04Record(c *Ctx) {
 		l := lits[0]
 		c.Check(l.fields["Key"] != nil && key(l.fields["Key"]), rule, fn, tn+".Key", l.alloc, tn+".Key ← msg.Key.Encode() (nil if absent)", tn+".Key is not the encoded key of the message being added (got "+describe(l.fields["Key"])+")", nil)
 		c.Check(l.fields["Value"] != nil && val(l.fields["Value"]), rule, fn, tn+".Value", l.alloc, tn+".Value ← msg.Value.Encode() (nil if absent)", tn+".Value is not the encoded value of the message being added (got "+describe(l.fields["Value"])+")", nil)
+		// … and it is nil ONLY when absent: the edge that carries nil into the field is the one on which the
+		// message's Encoder was found nil (an Encoder that is present but encodes to zero bytes is an EMPTY
+		// field, length 0 on the wire, not a null one)
+		for _, fld := range []string{"Key", "Value"} {
+			v := l.fields[fld]
+			if v == nil {
+				continue
+			}
+			ph, isPhi := strip(throughCell(v)).(*ssa.Phi)
+			if !isPhi {
+				continue
+			}
+			absent := Cmp{token.EQL, FieldLoadOf("ProducerMessage."+fld, Same(msg)), IsNil()}
+			reg := WholeFn(fn)
+			for i, e := range ph.Edges {
+				if !IsNil()(e) || i >= len(ph.Block().Preds) {
+					continue
+				}
+				pred := ph.Block().Preds[i]
+				ok := Establishes(pred, ph.Block(), absent)
+				if !ok {
+					ok, _ = reg.Guarded(Item{In: lastInstr(pred)}, absent)
+				}
+				c.Check(ok, rule, fn, tn+"."+fld+":nil-only-when-absent", ph, tn+"."+fld+" is nil only where msg."+fld+" == nil", tn+"."+fld+" can be nil although the message has a "+fld+" (e.g. an `Encoder.Length() == 0` shortcut): a present-but-empty "+strings.ToLower(fld)+" is written as null (length -1) instead of empty (length 0) — an empty value reaches the broker as a tombstone, which deletes the key on a compacted topic, and success is reported", nil)
+			}
+		}
 	}
 	// headers: store of &msg.Headers[i] into rec.Headers[i]
 	n := 0
